@@ -7,3 +7,4 @@ from . import serial_leg
 
 def run(ctx: Ctx) -> None:
     serial_leg.run_store_states(ctx, "C05", ctx.tier == "quick")
+    serial_leg.run_random_histories(ctx, "C05", ctx.tier == "quick")
